@@ -2,11 +2,13 @@ package core
 
 import (
 	"bufio"
+	"bytes"
 	"crypto/sha1"
 	"encoding/hex"
 	"encoding/json"
 	"fmt"
 	"os"
+	"os/exec"
 	"path/filepath"
 	"sort"
 	"strconv"
@@ -339,4 +341,71 @@ func (r *Run) Merge(path string) bool {
 	}
 	r.tlc = append(r.tlc, e.TLC...)
 	return true
+}
+
+// ChildResult describes how a re-executed driver ended.
+type ChildResult struct {
+	Merged   bool   // the child exported its coverage and it was merged
+	Crashed  bool   // the child died with a Go runtime fatal error or an escaped panic
+	TimedOut bool   // the child did not finish within the timeout
+	Text     string // tail of the child's output
+	Progress string // what the child was working on when it ended (contents of <out>.progress)
+}
+
+// RunChild re-executes the driver (VERIF_SELF) with args + [outfile], waits, merges the exported coverage.
+func (r *Run) RunChild(args []string, outfile string, timeout time.Duration) ChildResult {
+	self := os.Getenv("VERIF_SELF")
+	if self == "" {
+		self, _ = os.Executable()
+	}
+	cmd := exec.Command(self, append(args, outfile)...)
+	var buf bytes.Buffer
+	cmd.Stdout, cmd.Stderr = &buf, &buf
+	if err := cmd.Start(); err != nil {
+		Fatalf("start child: %v", err)
+	}
+	done := make(chan error, 1)
+	go func() { done <- cmd.Wait() }()
+	var res ChildResult
+	var err error
+	select {
+	case err = <-done:
+	case <-time.After(timeout):
+		_ = cmd.Process.Kill()
+		<-done
+		res.TimedOut = true
+	}
+	res.Merged = r.Merge(outfile)
+	os.Remove(outfile)
+	if p, e := os.ReadFile(outfile + ".progress"); e == nil {
+		res.Progress = string(p)
+		os.Remove(outfile + ".progress")
+	}
+	text := buf.String()
+	if len(text) > 4000 {
+		text = text[:2000] + "\n...\n" + text[len(text)-2000:]
+	}
+	res.Text = text
+	if err != nil && !res.TimedOut {
+		full := buf.String()
+		if strings.Contains(full, "fatal error:") || strings.Contains(full, "panic:") || strings.Contains(full, "goroutine ") {
+			res.Crashed = true
+		} else {
+			Fatalf("child %v failed: %v\n%s", args, err, text)
+		}
+	}
+	return res
+}
+
+// CrashLine extracts the "fatal error:" / "panic:" line of a Go crash report.
+func CrashLine(s string) string {
+	for _, l := range strings.Split(s, "\n") {
+		if strings.HasPrefix(l, "fatal error:") || strings.HasPrefix(l, "panic:") {
+			if len(l) > 90 {
+				l = l[:90]
+			}
+			return strings.ReplaceAll(l, " ", "_")
+		}
+	}
+	return "unknown"
 }
